@@ -23,7 +23,7 @@ theorem XRGoneSeen.mono {h h' : Hist} {cm : Obj} (hs : ∀ p ∈ h, p ∈ h') (h
   · exact .inr (.inr ⟨hf, .inr (hs _ hx)⟩)
 
 theorem always_claimFinalize (n : String) (h : Hist) (cm : Obj)
-    (hx : ∃ cm0, (Req.get ⟨.claim, n⟩, Resp.obj cm0) ∈ h ∧ XRGoneSeen h cm0) :
+    (hx : ∃ cm0, (Req.get ⟨.claim, n⟩, Resp.obj cm0) ∈ h ∧ cm.rv = cm0.rv ∧ XRGoneSeen h cm0) :
     Always (guardH .claim n) h (claimFinalize ⟨.claim, n⟩ cm) := by
   unfold claimFinalize
   split
@@ -35,6 +35,7 @@ theorem always_claimFinalize (n : String) (h : Hist) (cm : Obj)
 
 theorem always_claimDeleted (n : String) (h : Hist) (cm0 cm : Obj) (xr : Option Obj)
     (hget : (Req.get ⟨.claim, n⟩, Resp.obj cm0) ∈ h) (href : cm.ref = cm0.ref) (hflag : cm.flag = cm0.flag)
+    (hrv : cm.rv = cm0.rv)
     (hxr : xr = none → cm0.ref = "" ∨ (Req.get ⟨.xr, cm0.ref⟩, Resp.notFound) ∈ h) :
     Always (guardH .claim n) h (claimDeleted ⟨.claim, n⟩ cm xr) := by
   unfold claimDeleted
@@ -42,7 +43,7 @@ theorem always_claimDeleted (n : String) (h : Hist) (cm0 cm : Obj) (xr : Option 
   | none =>
     simp only []
     apply always_claimFinalize
-    refine ⟨cm0, hget, ?_⟩
+    refine ⟨cm0, hget, hrv, ?_⟩
     rcases hxr rfl with e | e
     · exact .inl e
     · exact .inr (.inl e)
@@ -61,7 +62,7 @@ theorem always_claimDeleted (n : String) (h : Hist) (cm0 cm : Obj) (xr : Option 
         · trivial
         · rename_i hf
           apply always_claimFinalize
-          refine ⟨cm0, List.mem_append_left _ hget, ?_⟩
+          refine ⟨cm0, List.mem_append_left _ hget, hrv, ?_⟩
           have hf' : cm0.flag = false := by
             have : (cm.cond "Ready" "Deleting").flag = cm.flag := rfl
             rw [this, hflag] at hf; simpa using hf
@@ -95,14 +96,14 @@ theorem always_claimBound (n : String) (h : Hist) (cm : Obj) (xr : Option Obj)
   | none =>
     simp only []
     split
-    · exact always_claimDeleted n h cm cm none hget rfl rfl hxr
+    · exact always_claimDeleted n h cm cm none hget rfl rfl rfl hxr
     · trivial
   | some x =>
     simp only []
     split
     · exact always_statusThen _ _ _ _ _ _
     · split
-      · exact always_claimDeleted n h cm cm (some x) hget rfl rfl (by intro e; cases e)
+      · exact always_claimDeleted n h cm cm (some x) hget rfl rfl rfl (by intro e; cases e)
       · trivial
 
 theorem always_claimGot (n : String) (h : Hist) (cm : Obj)
@@ -379,22 +380,22 @@ theorem always_revRec (n : String) : Always (guardH .rev n) [] (revRec n) := by
   | _ => trivial
 
 theorem always_usageFinalize (n : String) (h : Hist) (u0 u : Obj)
-    (hget : (Req.get ⟨.usage, n⟩, Resp.obj u0) ∈ h)
-    (hu : u0.ref = "" ∨ u0.flag = false ∨ (Req.get ⟨.res, u0.ref⟩, Resp.notFound) ∈ h) :
+    (hget : (Req.get ⟨.usage, n⟩, Resp.obj u0) ∈ h) (hrv : u.rv = u0.rv)
+    (hu : u0.ref = "" ∨ u0.flag = false ∨ (Req.get ⟨u0.refKind, u0.ref⟩, Resp.notFound) ∈ h) :
     Always (guardH .usage n) h (usageFinalize ⟨.usage, n⟩ u) := by
   unfold usageFinalize
   split
-  · refine ⟨fun _ => ⟨rfl, u0, hget, hu⟩, ?_⟩
+  · refine ⟨fun _ => ⟨rfl, u0, hget, hrv, hu⟩, ?_⟩
     intro y
     cases y <;> trivial
   · trivial
 
 theorem always_usageUsed (n : String) (h : Hist) (u : Obj)
     (hget : (Req.get ⟨.usage, n⟩, Resp.obj u) ∈ h)
-    (hu : u.ref = "" ∨ u.flag = false ∨ (Req.get ⟨.res, u.ref⟩, Resp.notFound) ∈ h) :
+    (hu : u.ref = "" ∨ u.flag = false ∨ (Req.get ⟨u.refKind, u.ref⟩, Resp.notFound) ∈ h) :
     Always (guardH .usage n) h (usageUsed ⟨.usage, n⟩ u) := by
   have mono : ∀ (h' : Hist), (∀ p ∈ h, p ∈ h') →
-      (u.ref = "" ∨ u.flag = false ∨ (Req.get ⟨.res, u.ref⟩, Resp.notFound) ∈ h') := by
+      (u.ref = "" ∨ u.flag = false ∨ (Req.get ⟨u.refKind, u.ref⟩, Resp.notFound) ∈ h') := by
     intro h' hs
     rcases hu with e | e | e
     · exact .inl e
@@ -416,16 +417,16 @@ theorem always_usageUsed (n : String) (h : Hist) (u : Obj)
         intro z
         cases z with
         | obj o =>
-          refine always_usageFinalize n _ u u ?_ (mono _ ?_)
+          refine always_usageFinalize n _ u u ?_ rfl (mono _ ?_)
           · exact List.mem_append_left _ (List.mem_append_left _ (List.mem_append_left _ hget))
           · intro p hp; exact List.mem_append_left _ (List.mem_append_left _ (List.mem_append_left _ hp))
         | _ => trivial
-      · refine always_usageFinalize n _ u u ?_ (mono _ ?_)
+      · refine always_usageFinalize n _ u u ?_ rfl (mono _ ?_)
         · exact List.mem_append_left _ (List.mem_append_left _ hget)
         · intro p hp; exact List.mem_append_left _ (List.mem_append_left _ hp)
     | _ => trivial
   | notFound =>
-    refine always_usageFinalize n _ u u (List.mem_append_left _ hget) (mono _ ?_)
+    refine always_usageFinalize n _ u u (List.mem_append_left _ hget) rfl (mono _ ?_)
     intro p hp; exact List.mem_append_left _ hp
   | _ => trivial
 
